@@ -230,7 +230,7 @@ func TestC11Pool(t *testing.T) { c11pool.Rapid(t) }
 // stage 2: concurrent script stress (run with -race; schedules are sampled)
 
 type readerOp struct {
-	Kind int `json:"k"` // 0 dict 1 postings 2 stored 3 earlystop 4 docid 5 docnumbers 6 dv 7 thes 8 merge
+	Kind int `json:"k"` // 0 dict 1 postings 2 stored 3 earlystop 4 docid 5 docnumbers 6 dv 7 thes 8 merge 9 hammer (many DocNumbers/DocID/lookups) 10 thesaurus with recycled, partly drained iterators
 	A    int `json:"a"`
 	B    int `json:"b"`
 }
@@ -260,7 +260,7 @@ func genStressCase(t *rapid.T) stressCase {
 		for j := 0; j < n; j++ {
 			l := fmt.Sprintf("g%do%d", i, j)
 			sc = append(sc, readerOp{
-				Kind: rapid.SampledFrom([]int{2, 0, 1, 3, 4, 5, 6, 7, 8, 3, 2}).Draw(t, l+"k"),
+				Kind: rapid.SampledFrom([]int{2, 0, 1, 3, 4, 5, 6, 7, 8, 3, 2, 9, 10, 9}).Draw(t, l+"k"),
 				A:    rapid.IntRange(0, 15).Draw(t, l+"a"),
 				B:    rapid.IntRange(0, 15).Draw(t, l+"b"),
 			})
@@ -436,6 +436,112 @@ func runReaderOp(prop string, seg, other segment.Segment, want, wantOther *spec.
 		}
 		if !reflect.DeepEqual(th, want.Thes[name]) {
 			return violation(prop, "stress/thesaurus-mismatch", "goroutine %d: thesaurus %q = %v, model %v", g, name, th, want.Thes[name])
+		}
+	case 9: // hammer: many short calls so that calls of different goroutines really overlap
+		for rep := 0; rep < 150; rep++ {
+			n := (op.A + rep) % nd
+			id := string(want.Stored[n][0].Val)
+			bm, err := seg.DocNumbers([]string{id, "nosuchid", string(want.Stored[(n+1)%nd][0].Val)})
+			if err != nil {
+				return violation(prop, "stress/error", "DocNumbers: %v", err)
+			}
+			exp := map[uint32]bool{}
+			for k := range want.Stored {
+				sid := string(want.Stored[k][0].Val)
+				if sid == id || sid == string(want.Stored[(n+1)%nd][0].Val) {
+					exp[uint32(k)] = true
+				}
+			}
+			got := bm.ToArray()
+			ok := len(got) == len(exp)
+			for _, x := range got {
+				if !exp[x] {
+					ok = false
+				}
+			}
+			if !ok {
+				return violation(prop, "stress/docnumbers-mismatch", "goroutine %d: DocNumbers(%q,...)=%v model %v", g, id, got, exp)
+			}
+			did, err := seg.DocID(uint64(n))
+			if err != nil || !bytes.Equal(did, want.Stored[n][0].Val) {
+				return violation(prop, "stress/docid-mismatch", "goroutine %d: DocID(%d)=%q,%v model %q", g, n, did, err, want.Stored[n][0].Val)
+			}
+			d, err := seg.Dictionary("_id")
+			if err != nil {
+				return violation(prop, "stress/error", "Dictionary(_id): %v", err)
+			}
+			pl, err := d.PostingsList([]byte(id), nil, nil)
+			if err != nil {
+				return violation(prop, "stress/error", "PostingsList: %v", err)
+			}
+			if pl.Count() != uint64(len(want.Index["_id"][id])) {
+				return violation(prop, "stress/postings-mismatch", "goroutine %d: (_id,%q) Count %d model %d", g, id, pl.Count(), len(want.Index["_id"][id]))
+			}
+		}
+	case 10: // thesaurus lookups the way a recycling reader does them: empty lookup, then a
+		// non-empty one reusing that iterator, drained only partly, then empty lookups again
+		ts, ok := seg.(segment.ThesaurusSegment)
+		if !ok {
+			return nil
+		}
+		var names []string
+		for n := range want.Thes {
+			names = append(names, n)
+		}
+		if len(names) == 0 {
+			return nil
+		}
+		sort.Strings(names)
+		name := names[op.A%len(names)]
+		th, err := ts.Thesaurus(name)
+		if err != nil {
+			return violation(prop, "stress/error", "Thesaurus: %v", err)
+		}
+		var terms []string
+		for t := range want.Thes[name] {
+			terms = append(terms, t)
+		}
+		sort.Strings(terms)
+		known := terms[op.B%len(terms)]
+		el, err := th.SynonymsList([]byte("\x03none\x03"), nil, nil)
+		if err != nil {
+			return violation(prop, "stress/error", "SynonymsList: %v", err)
+		}
+		it0 := el.Iterator(nil)
+		if s0, _ := it0.Next(); s0 != nil {
+			return violation(prop, "stress/thesaurus-mismatch", "goroutine %d: unknown term of thesaurus %q yields %q", g, name, s0.Term())
+		}
+		kl, err := th.SynonymsList([]byte(known), nil, nil)
+		if err != nil {
+			return violation(prop, "stress/error", "SynonymsList: %v", err)
+		}
+		it1 := kl.Iterator(it0)
+		first, err := it1.Next()
+		if err != nil || first == nil {
+			return violation(prop, "stress/thesaurus-mismatch", "goroutine %d: thesaurus %q term %q yields nothing (%v), model %v", g, name, known, err, want.Thes[name][known])
+		}
+		okPair := false
+		for _, p := range want.Thes[name][known] {
+			if p.Syn == first.Term() && p.Doc == first.Number() {
+				okPair = true
+			}
+		}
+		if !okPair {
+			return violation(prop, "stress/thesaurus-mismatch", "goroutine %d: thesaurus %q term %q yields (%q,%d), not in model %v", g, name, known, first.Term(), first.Number(), want.Thes[name][known])
+		}
+		runtime.Gosched()
+		el2, err := th.SynonymsList([]byte("\x03none2\x03"), nil, nil)
+		if err != nil {
+			return violation(prop, "stress/error", "SynonymsList: %v", err)
+		}
+		if s2, _ := el2.Iterator(nil).Next(); s2 != nil {
+			return violation(prop, "stress/thesaurus-mismatch", "goroutine %d: an unknown term of thesaurus %q yields %q", g, name, s2.Term())
+		}
+		for {
+			x, err := it1.Next()
+			if err != nil || x == nil {
+				break
+			}
 		}
 	case 8: // use the shared segment as a merge input
 		path := drive.NewPath("c11merge")
